@@ -121,7 +121,7 @@ def unit_default_file_names(twin=False):
     selected_<n>.<id>.out and <prefix>.<id>.<suffix>."""
     import re
     r = U.new_unit("C13.file_names.defaults_embed_user_number_and_instance_id", IPQ, "IPhreeqc::punch_open", A.find_function(IPQ, "IPhreeqc::punch_open"), kind="structural")
-    txt = re.sub(r"\s+", "", src(IPQ).decode("latin1"))
+    txt = A.squeeze(src(IPQ).decode("latin1"))
     sites = re.findall(r"this->SelectedOutputFileNameMap\[([^\]]+)\]=this->sel_file_name\(([^\)]+)\);", txt)
     for k, (key, arg) in enumerate(sites):
         ok = key == arg and not (twin and k == 0)
